@@ -286,7 +286,7 @@ type mmstate = { mutable live : Model.state; mutable nreq : int; style : string;
                  mutable fl : fl_state; mutable sizes : (int * (int * int)) list }
 let mms : (string, mmstate) Hashtbl.t = Hashtbl.create 7
 
-let sat_limit = 48
+let sat_limit = 100000
 let dd_top = function T _ -> 0 | N (k, _) -> int_of_nat k
 
 (* ---- audit: parse the implementation's dump and run the extracted checker ---- *)
@@ -415,6 +415,14 @@ let rec run toks =
     lstep_do (LCreateDomain (nat_of_int !next_dom))
   | "auditmode" :: m :: _ -> lenient_counts := (m = "lenient")
   | "init" :: _ -> lstep_do LInitialize
+  | "cleanup" :: "keep" :: _ ->
+    (* the user's edges outlive the library: all of them are detached, the
+       forests and domains are gone, the registry restarts at the next init *)
+    lstep_do LCleanup;
+    Hashtbl.reset edges; Hashtbl.reset evtabs;
+    Hashtbl.iter (fun fn _ -> Hashtbl.replace dead_forests fn ()) fors;
+    Hashtbl.iter (fun d _ -> Hashtbl.replace dead_doms d ()) doms;
+    Hashtbl.reset forest_ids; Hashtbl.reset dom_ids; Hashtbl.reset idxsets; Hashtbl.reset xfiles
   | "cleanup" :: _ ->
     lstep_do LCleanup;
     Hashtbl.reset edges; Hashtbl.reset evtabs; Hashtbl.reset fors; Hashtbl.reset doms;
@@ -632,14 +640,14 @@ let rec run toks =
            | "reach_sat" when Array.fold_left ( * ) 1 fs.sizes <= sat_limit ->
              (* the model's own saturation (SatDDP.sat_dd_is_reach_dd: same diagram as reach_dd) *)
              print_endline "#thm model-saturation(sat_dd) monolithic";
-             (match sat_dd szs k fs.rule fm.rule fr.rule ts [tm] with Some t -> t | None -> raise Unsupported)
+             (match sat_dd_fast szs k fs.rule fm.rule fr.rule ts [tm] with Some t -> t | None -> raise Unsupported)
            | "reach_fs" when Array.fold_left ( * ) 1 fs.sizes <= sat_limit ->
              print_endline "#thm model-frontier(reach_fs_dd)";
-             (match reach_fs_dd szs k fs.rule fm.rule fr.rule ts tm with Some t -> t | None -> raise Unsupported)
+             (match reach_fs_dd_fast szs k fs.rule fm.rule fr.rule ts tm with Some t -> t | None -> raise Unsupported)
            | "reach_fs" | "reach_nofs" | "reach_sat" ->
-             (match reach_dd szs k fs.rule fm.rule fr.rule ts tm with Some t -> t | None -> raise Unsupported)
+             (match reach_dd_fast szs k fs.rule fm.rule fr.rule ts tm with Some t -> t | None -> raise Unsupported)
            | _ ->
-             (match rreach_dd szs k fs.rule fm.rule fr.rule ts tm with Some t -> t | None -> raise Unsupported))
+             (match rreach_dd_fast szs k fs.rule fm.rule fr.rule ts tm with Some t -> t | None -> raise Unsupported))
         | "vm" ->
           if fs.range <> RInt || fm.range <> RInt || fr.range <> RInt then raise Unsupported;
           vm_dd szs k fs.rule fm.rule fr.rule ts tm
@@ -743,6 +751,25 @@ let rec run toks =
       | _ -> raise Unsupported in
     let t = apply1 (szf fr) g fa.rule fr.rule l O ta in
     set_edge r fn t; show r
+  | "edgeval" :: fn :: kind :: rest ->
+    let f = get_forest fn in
+    (match f.lab, kind, rest with
+     | EVT, "dbl", _ :: f32 :: _ ->
+       let fb = z_of_int (int_of_string ("0x" ^ f32)) in
+       let (tr, st) = evt_encode fb in
+       let back = evt_decode (tr, st) in
+       emit (Printf.sprintf "edgeval p=%s v=%08x back=%08x" (if tr then "z" else "w") (int_of_z st) (int_of_z back))
+     | EVP, "int", v :: _ ->
+       let (isinf, st) = evp_encode (Some (z_of_int (int_of_string v))) in
+       (match evp_decode (isinf, st) with
+        | Some b -> emit (Printf.sprintf "edgeval p=%s v=%d back=%d" (if isinf then "inf" else "w") (int_of_z st) (int_of_z b))
+        | None -> emit "edgeval p=inf v=0 back=inf")
+     | EVP, "inf", _ ->
+       let (isinf, st) = evp_encode None in
+       (match evp_decode (isinf, st) with
+        | None -> emit (Printf.sprintf "edgeval p=%s v=%d back=inf" (if isinf then "inf" else "w") (int_of_z st))
+        | Some b -> emit (Printf.sprintf "edgeval p=w v=%d back=%d" (int_of_z st) (int_of_z b)))
+     | _ -> raise Unsupported)
   | "term" :: kind :: v :: _ ->
     let str = ocaml_string in
     let big s = (* decimal or hex string to z, via int (63-bit is enough) *) z_of_int (int_of_string s) in
@@ -951,8 +978,8 @@ let rec run toks =
               SatDDP.sat_dd_is_reach_dd this is the diagram reach_dd builds for the union *)
            let evs = List.sort (fun a b -> compare (dd_top b) (dd_top a)) (List.map snd evl) in
            print_endline (Printf.sprintf "#thm model-saturation(sat_dd) events=%d" (List.length evs));
-           sat_dd (szf fs) k fs.rule fm.rule fr.rule ts evs
-         end else reach_dd (szf fs) k fs.rule fm.rule fr.rule ts un in
+           sat_dd_fast (szf fs) k fs.rule fm.rule fr.rule ts evs
+         end else reach_dd_fast (szf fs) k fs.rule fm.rule fr.rule ts un in
        (match res with
         | Some t -> set_edge r fn t; show r
         | None -> raise Unsupported))
